@@ -228,6 +228,10 @@ def install_main_hooks(I, w, cfg, sk, st):
         ordv = a[1]
         has_ord = isinstance(ordv, Adt) and 1 in ordv.alts and g_true(ordv.alts[1][0])
         want = cfg['channel']
+        if cfg.get('fails') == 'ordering' and tag is not None and tag != want:
+            return mk('Result', 1, [Opaque('io::Error(Unknown token)')])
+        if cfg.get('fails') == 'formula' and tag == want:
+            return mk('Result', 1, [Opaque('io::Error(Unknown token)')])
         if tag is not None and tag != want and not has_ord and (tag.startswith('inline:') or tag[5:] in cfg.get('files', {})):
             # a concrete text other than the formula (the ordering file, or a piece of it): its reference tokenization
             text = tag[7:] if tag.startswith('inline:') else cfg['files'][tag[5:]]
@@ -277,7 +281,7 @@ def install_main_hooks(I, w, cfg, sk, st):
             st.setdefault('problems', []).append('an ordering vector is passed although no -o was given')
         return mk('Result', 0, [st['tokens']])
     H[('SymbolicBDD', None, 'tokenize')] = tokenize
-    H[('SymbolicBDD', None, 'parse_formula')] = lambda I2, fr, a: mk('Result', 0, [st['tree']])
+    H[('SymbolicBDD', None, 'parse_formula')] = lambda I2, fr, a: (mk('Result', 1, [Opaque('io::Error(parse error)')]) if cfg.get('fails') == 'parse' else mk('Result', 0, [st['tree']]))
 
     # recorders
     printcore.install_print_hooks(I)
@@ -401,6 +405,25 @@ def unit_main(cfg, shape, k, opts):
         res['sample'] = dict(unit='main under %s' % cfg_text(cfg), outcome='aborted by a stub: ' + '; '.join(st['problems']))
         return res
     rets, pc, pm = outcome_split(outs)
+    if cfg.get('fails') and w is None:
+        # main stopped before the formula was looked at (the ordering file could not be tokenized)
+        res = dict(queries=[], method='main', outcomes=len(rets))
+        not_err = False
+        for r in rets:
+            v = r.value
+            iserr = v.alts[1][0] if isinstance(v, Adt) and v.ty == 'Result' and 1 in v.alts else False
+            not_err = gor(not_err, gand(r.guard, gor(gnot(iserr), len(r.mem[STDOUT].items) > 0)))
+        for nm, neg in (('main does not panic', pc), ('a tokenizer error (%s) is returned as Err by main and nothing is printed' % cfg['fails'], not_err)):
+            q = decide(nm, [], neg, timeout_s=60)
+            q['expect'] = 'unsat'
+            q.pop('model', None)
+            res['queries'].append(q)
+            if q['result'] != 'unsat':
+                res['status'] = 'inconclusive'
+                res['error'] = '"%s" is %s' % (nm, q['result'])
+        res.update(interp_summary(I))
+        res['sample'] = dict(unit='main under %s with a failing %s' % (cfg_text(cfg), cfg['fails']), outcomes=len(rets), obligations=[q['name'] for q in res['queries']])
+        return res
     inv_bad = gor(*[g for msg, g in pm if str(msg).startswith('INVARIANT')]) if pm else False
     unwound = gor(*[g for msg, g in pm if str(msg).startswith('UNWIND')]) if pm else False
     pc = gor(*[g for msg, g in pm if not str(msg).startswith(('INVARIANT', 'UNWIND'))]) if pm else False
@@ -596,6 +619,19 @@ def unit_main(cfg, shape, k, opts):
         res['status'] = 'inconclusive'
         res['error'] = 'a loop of main exceeds the unrolling bound %d' % I.cfg.get('loop_bound', 0)
     ask('main does not panic', pc)
+    if cfg.get('fails'):
+        # an error reported by the tokenizer / parser must come out of main as Err, with nothing printed
+        not_err = False
+        for r in rets:
+            v = r.value
+            iserr = v.alts[1][0] if isinstance(v, Adt) and v.ty == 'Result' and 1 in v.alts else False
+            printed = len(r.mem[STDOUT].items) > 0
+            not_err = gor(not_err, gand(r.guard, gor(gnot(iserr), printed)))
+        ask('a tokenizer / parser error (%s) is returned as Err by main and nothing is printed' % cfg['fails'], not_err)
+        res.update(interp_summary(I))
+        res['cex'] = None if cex is None else cex
+        res['sample'] = dict(unit='main under %s with a failing %s' % (cfg_text(cfg), cfg['fails']), outcomes=len(rets), obligations=[q['name'] for q in res['queries']])
+        return res
     ask('the unique table keeps both terminals and key == *value whatever main does to it between evaluations', inv_bad)
     ask('main returns Ok', bad_ret)
     ask('stdout has the documented structure (-r lines, header, rows, -v lines)', bad_shape)
@@ -920,6 +956,11 @@ def jobs_nopanic(quick):
         for sh, k in [(B2, 3)] + ([] if quick else [(Q1, 3), (('fp', ('bin', 'L', 'L')), 3), (('cc', ('L', 'L')), 3)]):
             cfg = dict(E, **c)
             js.append(('main [%s] sketch %r k=%d' % (cfg_text(cfg), sh, k), unit_main, (cfg, sh, k, dict(timeout=250 if quick else 1500))))
+    for what in ('formula', 'parse', 'ordering'):
+        cfg = dict(E, truthtable=True, vars=True, export_ordering=True, fails=what)
+        if what == 'ordering':
+            cfg.update(ordering='o.txt', files={'o.txt': 'a $ b'}, names=['a', 'b'])
+        js.append(('main [%s] with a failing %s' % (cfg_text(cfg), what), unit_main, (cfg, B2, 2, {})))
     for text, nm in [('b a', 'ab'), ('', 'a'), ('a a a', 'ab'), ('x a y b z', 'ab'), ('x y', 'a')]:
         cfg = dict(E, truthtable=True, vars=True, export_ordering=True, ordering='o.txt', files={'o.txt': text}, names=list(nm))
         js.append(('main [%s] sketch %r over %s' % (cfg_text(cfg), B2, list(nm)), unit_main, (cfg, B2, len(nm), {})))
